@@ -20,10 +20,17 @@ using namespace au;
 """
 
 PROGRAMS = {}
+# Programs written against ONE header of the tree (plus the unit headers they name) instead of the
+# umbrella au/au.hh: what `#include`s the multi-header build gets.  The single-file build always
+# gets the whole package - that is the point: a header that compiles alone but whose API can only
+# be *used* once some other header has been seen works in the package and not in the tree.
+MULTI_INCLUDES = {}
 
 
-def _p(name, body):
+def _p(name, body, multi_includes=None):
     PROGRAMS[name] = HEAD + body.strip("\n") + "\n"
+    if multi_includes:
+        MULTI_INCLUDES[name] = list(multi_includes)
 
 
 # docs/troubleshooting.md, "Broken strict total ordering": two distinct units of equal size
@@ -159,6 +166,72 @@ int main() {
 """)
 
 
+_p("only_chrono_interop", r"""
+#include <chrono>
+int main() {
+    const auto ns = as_quantity(std::chrono::nanoseconds{1500});
+    const auto us = as_quantity(std::chrono::microseconds{7});
+    const auto ms = as_quantity(std::chrono::milliseconds{250});
+    const auto s = as_quantity(std::chrono::seconds{3});
+    const auto mi = as_quantity(std::chrono::minutes{2});
+    const auto h = as_quantity(std::chrono::hours{1});
+    const QuantityD<Minutes> m = std::chrono::milliseconds{90000};
+    const std::chrono::duration<double, std::milli> back = seconds(1.5);
+    std::printf("%lld %lld %lld %lld %lld %lld | %.17g %.17g | %d %d %lld\n", static_cast<long long>(ns.in(ns.unit)), static_cast<long long>(us.in(us.unit)),
+                static_cast<long long>(ms.in(ms.unit)), static_cast<long long>(s.in(seconds)), static_cast<long long>(mi.in(minutes)), static_cast<long long>(h.in(hours)),
+                m.in(minutes), back.count(), int(std::chrono::microseconds{999} < seconds(1)), int(hours(1) == std::chrono::minutes{60}),
+                static_cast<long long>((seconds(2) + std::chrono::milliseconds{250}).in(ms.unit)));
+    return 0;
+}
+""", multi_includes=["au/chrono_interop.hh"])
+
+_p("only_math", r"""
+int main() {
+    std::printf("%d %d %d %.17g %.17g %d %d %d %.17g %d\n", abs(seconds(-3)).in(seconds), max(seconds(61), minutes(1)).in(seconds), clamp(seconds(200), minutes(1), minutes(2)).in(seconds),
+                fmod(seconds(7.5), seconds(2.0)).in(seconds), remainder(seconds(7.5), seconds(2.0)).in(seconds), round_in<int>(minutes, seconds(89.0)), floor_in<int>(minutes, seconds(119.0)),
+                ceil_in<int>(minutes, seconds(61.0)), sqrt(squared(seconds)(16.0)).in(seconds), int(isnan(seconds(0.0) / 1.0)));
+    std::printf("%d %d %.17g\n", int_pow<3>(seconds(2)).in(cubed(seconds)), int(std::numeric_limits<Quantity<Seconds, int>>::max() > minutes(1)), inverse_as(seconds, seconds(4.0) / squared(seconds)(1.0) * seconds(1.0) / seconds(1.0)).in(seconds));
+    return 0;
+}
+""", multi_includes=["au/math.hh", "au/units/seconds.hh", "au/units/minutes.hh"])
+
+_p("only_prefix", r"""
+int main() {
+    std::printf("%d %d [%s] [%s] %.17g\n", milli(seconds)(5).in(micro(seconds)), kilo(seconds)(2).in(seconds), unit_label(kilo(seconds)), unit_label(Nano<Seconds>{}), mega(seconds)(1.5).in(kilo(seconds)));
+    std::printf("%d %d\n", kibi(seconds)(1).in(seconds), int(centi(seconds)(100) == seconds(1)));
+    return 0;
+}
+""", multi_includes=["au/prefix.hh", "au/units/seconds.hh"])
+
+_p("only_constant", r"""
+int main() {
+    constexpr auto rate = make_constant(minutes / seconds);
+    std::printf("%d %.17g %d\n", rate.as<int>(seconds / seconds).in(seconds / seconds), (2.5 * rate).in(seconds / seconds), int(rate.in<int>(minutes / seconds)));
+    std::printf("%d %.17g\n", (seconds(3) * rate).in(minutes), (minutes(1.0) / rate).in(seconds));
+    return 0;
+}
+""", multi_includes=["au/constant.hh", "au/units/seconds.hh", "au/units/minutes.hh"])
+
+_p("only_quantity_point", r"""
+int main() {
+    const auto a = make_quantity_point<Seconds>(90);
+    const auto b = make_quantity_point<Minutes>(1);
+    std::printf("%d %d %d %d %zu\n", (a - b).in(seconds), int(a > b), (b + seconds(30)).in(Seconds{}), int(a.coerce_as(Minutes{}) == b), sizeof(a - b));
+    return 0;
+}
+""", multi_includes=["au/quantity_point.hh", "au/units/seconds.hh", "au/units/minutes.hh"])
+
+_p("only_io", r"""
+#include <sstream>
+int main() {
+    std::ostringstream oss;
+    oss << seconds(3) << '|' << minutes(1.5) << '|' << make_quantity_point<Seconds>(4) << '|' << ZERO;
+    std::printf("%s\n", oss.str().c_str());
+    return 0;
+}
+""", multi_includes=["au/io.hh", "au/quantity_point.hh", "au/units/seconds.hh", "au/units/minutes.hh"])
+
+
 def names():
     return sorted(PROGRAMS)
 
@@ -169,7 +242,8 @@ def judge(builder, name, single_header, toolchains):
     text = PROGRAMS[name]
     jobs = []
     for tc in toolchains:
-        jobs.append((tc, "multi", None, {"edge.cc": '#include "au/au.hh"\n' + text}))
+        inc = "".join('#include "%s"\n' % h for h in MULTI_INCLUDES.get(name, ["au/au.hh"]))
+        jobs.append((tc, "multi", None, {"edge.cc": inc + text}))
         jobs.append((tc, "single", single_header, {"edge.cc": '#include "au.hh"\n#include "au.hh"\n' + text}))
     with ThreadPoolExecutor(6) as ex:
         outs = list(ex.map(lambda j: builder.build(j[1], j[2], j[3], j[0]), jobs))
